@@ -242,6 +242,57 @@ func appFacts(out string) {
 	write(filepath.Join(out, "AppFacts.lean"), sb.String())
 }
 
+// persistFacts: the file-system relevant steps of ShutterApp.PersistToDisk, in source order.
+func persistFacts(out string) {
+	p := load("app")[0]
+	var calls []string
+	for _, f := range p.Syntax {
+		for _, d := range f.Decls {
+			fd, ok := d.(*ast.FuncDecl)
+			if !ok || fd.Body == nil || funcName(fd) != "ShutterApp.PersistToDisk" {
+				continue
+			}
+			ast.Inspect(fd.Body, func(n ast.Node) bool {
+				switch x := n.(type) {
+				case *ast.DeferStmt, *ast.FuncLit:
+					return false
+				case *ast.AssignStmt:
+					if len(x.Lhs) == 1 {
+						if id, ok := x.Lhs[0].(*ast.Ident); ok && id.Name == "tmppath" {
+							calls = append(calls, nodeText(p.Fset, x))
+						}
+					}
+				case *ast.CallExpr:
+					if sel, ok := x.Fun.(*ast.SelectorExpr); ok {
+						if id, ok := sel.X.(*ast.Ident); ok {
+							switch id.Name {
+							case "log", "time", "errors", "fmt":
+								return true
+							}
+							if _, isPkg := p.TypesInfo.Uses[id].(*types.PkgName); isPkg || id.Name == "file" || id.Name == "enc" {
+								calls = append(calls, nodeText(p.Fset, x))
+							}
+						}
+					}
+				}
+				return true
+			})
+		}
+	}
+	var sb strings.Builder
+	sb.WriteString("/- GENERATED by harness/factx from /repo/rolling-shutter/app/app.go — do not edit. -/\nnamespace Shutter.Generated.PersistFacts\n\n")
+	sb.WriteString("/-- file-system relevant steps of ShutterApp.PersistToDisk in source order (deferred calls excluded) -/\n")
+	sb.WriteString("def persistCalls : List String := [")
+	for i, c := range calls {
+		if i > 0 {
+			sb.WriteString(",")
+		}
+		sb.WriteString("\n  " + leanStr(c))
+	}
+	sb.WriteString("]\n\nend Shutter.Generated.PersistFacts\n")
+	write(filepath.Join(out, "PersistFacts.lean"), sb.String())
+}
+
 func dedup(ps [][2]string) [][2]string {
 	out := [][2]string{}
 	for i, p := range ps {
@@ -283,6 +334,8 @@ func main() {
 		switch what {
 		case "app":
 			appFacts(*out)
+		case "persist":
+			persistFacts(*out)
 		default:
 			fmt.Fprintln(os.Stderr, "factx: unknown fact set", what)
 			os.Exit(1)
